@@ -163,6 +163,48 @@ pub fn eval_two_segments(e1: Option<u32>, a: u8, e2: u32, b: u8, st: &mut Stats)
     }
 }
 
+/// Designators directly behind each other: [a under e0]? [ECI e1][ECI e2] b — the last designator
+/// before a byte governs it, whatever the numeric order of the designators.
+pub fn eval_adjacent(pre: Option<(Option<u32>, u8)>, e1: u32, e2: u32, b: u8, st: &mut Stats) -> Result<(), String> {
+    let map = |e: Option<u32>, x: u8| -> Option<char> {
+        match e {
+            None | Some(3) => charset::latin1(x),
+            Some(11) => charset::latin5(x),
+            Some(13) => charset::thai(x),
+            Some(26) | Some(27) => if x < 0x80 { Some(x as char) } else { None },
+            _ => None,
+        }
+    };
+    let mut cw = Vec::new();
+    let mut want: Option<String> = Some(String::new());
+    if let Some((e0, a)) = pre {
+        cw.extend(stream_with(e0, &[a], Carrier::Ascii));
+        want = map(e0, a).map(|c| c.to_string());
+    }
+    cw.extend(stream_with(Some(e1), &[], Carrier::Ascii));
+    cw.extend(stream_with(Some(e2), &[b], Carrier::Ascii));
+    want = match (want, map(Some(e2), b)) {
+        (Some(mut s), Some(c)) => {
+            s.push(c);
+            Some(s)
+        }
+        _ => None,
+    };
+    let got = guarded(|| decode_str(&cw)).map_err(|p| format!("decode_str: {}", p))?;
+    match (got, want) {
+        (Ok(g), Some(w)) if g == w => {
+            st.count("adjacent_designators_mapped");
+            st.count("nontrivial");
+            Ok(())
+        }
+        (Err(DataDecodingError::CharsetError), None) => {
+            st.count("charset_error");
+            Ok(())
+        }
+        (g, w) => Err(format!("stream {:?}: decode_str gives {:?}, the last designator before each byte gives {:?}", cw, g, w)),
+    }
+}
+
 fn cdesc(eci: Option<u32>, bytes: &[u8], carrier: Carrier) -> Value {
     json!({"kind": "charset", "eci": eci, "bytes": hex(bytes), "carrier": format!("{:?}", carrier)})
 }
@@ -236,6 +278,20 @@ pub fn run(ctx: &Ctx) -> i32 {
             }
         }
     });
+    // 3c. designators directly behind each other (no data between them), in both numeric orders,
+    //     at the start of the stream and after a first segment
+    ctx.par(256, |c, w| {
+        let b = c as u8;
+        w.label(|| format!("adjacent designators byte {}", b));
+        for e1 in [3u32, 11, 13, 26, 27] {
+            for e2 in [3u32, 11, 13, 26, 27] {
+                w.check(3, || json!({"kind": "adj", "e1": e1, "e2": e2, "b": b}), |st| eval_adjacent(None, e1, e2, b, st));
+                for (e0, a) in [(None, 0xE9u8), (Some(13u32), 0xA1), (Some(26), 0x41)] {
+                    w.check(4, || json!({"kind": "adj", "e0": e0, "a": a, "pre": true, "e1": e1, "e2": e2, "b": b}), |st| eval_adjacent(Some((e0, a)), e1, e2, b, st));
+                }
+            }
+        }
+    });
     // 4. UTF-8: all 3-byte sequences (thorough) / boundary alphabet (quick), 4-byte over the boundary alphabet
     let b19: Vec<u8> = vec![0x00, 0x41, 0x7F, 0x80, 0x8F, 0x90, 0x9F, 0xA0, 0xBF, 0xC0, 0xC1, 0xC2, 0xDF, 0xE0, 0xED, 0xEF, 0xF0, 0xF4, 0xF5];
     {
@@ -270,7 +326,7 @@ pub fn run(ctx: &Ctx) -> i32 {
         "distinct_nontrivial": ctx.counter("nontrivial"),
         "rule": format!("write side: all 1,000,000 ECI numbers through encode_eci: codewords after 241 equal the closed formulas of ISO/IEC 16022 Table 6, are read back (hook eci_spans) as the same number, decode_data reports ECICode; \
 read side: every designator sequence of the length its first codeword demands (127 + 64*256 + 16*65536) and every truncation: accepted with the right number iff well formed; character sets: ECI none/3/11/13/26/27 x all 256 bytes x ASCII(upper shift) and Base256 carriage, \
-all byte pairs in Base256 (one fifth in ASCII), two segments [ECI e1] a [ECI e2] b for all character-set pairs and bytes a, b, all 16.7 M 3-byte sequences and all sequences of length 3..4 over a 19-value boundary alphabet under ECI 26{}: decode_str equals ISO 8859-1/-9/-11 by rule resp. passes exactly the RFC 3629 / 7-bit sequences, CharsetError elsewhere. All cases distinct; \
+all byte pairs in Base256 (one fifth in ASCII), two segments [ECI e1] a [ECI e2] b for all character-set pairs and bytes a, b, designators directly behind each other [ECI e1][ECI e2] b in both numeric orders (bare and after a first segment), all 16.7 M 3-byte sequences and all sequences of length 3..4 over a 19-value boundary alphabet under ECI 26{}: decode_str equals ISO 8859-1/-9/-11 by rule resp. passes exactly the RFC 3629 / 7-bit sequences, CharsetError elsewhere. All cases distinct; \
 non-trivial = number round trip, malformed designator rejected, or defined character mapped.", if ctx.tier == Tier::Thorough { " (thorough: boundary alphabet also at length 5)" } else { "" }),
         "exhaustive": true,
         "wellformed_designators_beyond_999999_accepted_not_judged": ctx.counter("wellformed_beyond_999999"),
@@ -288,6 +344,10 @@ pub fn replay(case: &Value) -> Result<(), String> {
         "number" => eval_number(case["eci"].as_u64().ok_or("eci")? as u32, &mut st),
         "designator" => eval_designator(&unhex(case["seq"].as_str().ok_or("seq")?), &mut st),
         "two" => eval_two_segments(case["e1"].as_u64().map(|e| e as u32), case["a"].as_u64().ok_or("a")? as u8, case["e2"].as_u64().ok_or("e2")? as u32, case["b"].as_u64().ok_or("b")? as u8, &mut st),
+        "adj" => {
+            let pre = if case["pre"].as_bool().unwrap_or(false) { Some((case["e0"].as_u64().map(|e| e as u32), case["a"].as_u64().ok_or("a")? as u8)) } else { None };
+            eval_adjacent(pre, case["e1"].as_u64().ok_or("e1")? as u32, case["e2"].as_u64().ok_or("e2")? as u32, case["b"].as_u64().ok_or("b")? as u8, &mut st)
+        }
         "charset" => {
             let carrier = if case["carrier"] == "Ascii" { Carrier::Ascii } else { Carrier::Base256 };
             eval_charset(case["eci"].as_u64().map(|e| e as u32), &unhex(case["bytes"].as_str().ok_or("bytes")?), carrier, &mut st)
